@@ -261,7 +261,8 @@ class Net:
         if k == "serial":
             return [self.layer(xs[0], neuron_kwargs=kw(kinds[0]))]
         if k == "biclique":
-            out = self.layer({f"c{i}": (x,) for i, x in enumerate(xs)},
+            # an entry `None` = the input key is omitted on this step (Layer.forward then does not run that connection)
+            out = self.layer({f"c{i}": (x,) for i, x in enumerate(xs) if x is not None},
                              neuron_kwargs={f"n{j}": kw(kinds[j]) for j in range(len(kinds))})
             return [out[f"n{j}"] for j in range(len(kinds))]
         out = self.layer(xs[0], feedfwd_neuron_kwargs=kw(kinds[0]), feedback_neuron_kwargs=kw(kinds[1]))
@@ -278,9 +279,22 @@ def trainer_cfg(rng, kind, inplace=None):
     return c
 
 
+def biphasic_post_kernel(diff, learning_rate, time_constant, **kwargs):
+    """a kernel whose SIGN depends on the spike-time difference (potentiating close to coincidence, depressing further out)"""
+    near = (diff.abs() <= time_constant / 8).to(dtype=diff.dtype)
+    return torch.exp(diff.abs() / (-time_constant)) * (learning_rate * (diff >= 0).to(dtype=diff.dtype)) * (2 * near - 1)
+
+
+def biphasic_pre_kernel(diff, learning_rate, time_constant, **kwargs):
+    near = (diff.abs() <= time_constant / 8).to(dtype=diff.dtype)
+    return torch.exp(diff.abs() / (-time_constant)) * (learning_rate * (diff < 0).to(dtype=diff.dtype)) * (2 * near - 1)
+
+
 def build_trainer(c, net: Net, batch_reduction=None):
     k = c["kind"]
     red = batch_reduction if batch_reduction is not None else {"mean": torch.mean, "sum": torch.sum}[c["reduction"]]
+    kpost, kpre = ((biphasic_post_kernel, biphasic_pre_kernel) if c.get("kernel") == "biphasic"
+                   else (exp_stdp_post_kernel, exp_stdp_pre_kernel))
     if k == "STDP":
         t = learn.STDP(c["lr_post"], c["lr_pre"], c["tc_post"], c["tc_pre"], delayed=c["delayed"],
                        interp_tolerance=c["tol"], trace_mode=c["trace"], batch_reduction=red)
@@ -295,7 +309,7 @@ def build_trainer(c, net: Net, batch_reduction=None):
         t = learn.MSTDPET(c["lr_post"], c["lr_pre"], c["tc_post"], c["tc_pre"], c["tc_elig"],
                           interp_tolerance=c["tol"], trace_mode=c["trace"], batch_reduction=red)
     elif k == "KernelSTDP":
-        t = learn.KernelSTDP(exp_stdp_post_kernel, exp_stdp_pre_kernel,
+        t = learn.KernelSTDP(kpost, kpre,
                              {"learning_rate": c["lr_post"], "time_constant": c["tc_post"]},
                              {"learning_rate": c["lr_pre"], "time_constant": c["tc_pre"]},
                              delayed=c["delayed"], interp_tolerance=c["tol"], batch_reduction=red, inplace=c["inplace"])
@@ -306,7 +320,7 @@ def build_trainer(c, net: Net, batch_reduction=None):
         t = getattr(learn, k)(lr_neg=c["lr_pre"], lr_pos=c["lr_post"], tc_neg=c["tc_pre"], tc_pos=c["tc_post"],
                               interp_tolerance=c["tol"], batch_reduction=red, inplace=c["inplace"])
     elif k in ("DelayAdjustedKernelSTDP", "DelayAdjustedKernelSTDPD"):
-        t = getattr(learn, k)(exp_stdp_post_kernel, exp_stdp_pre_kernel,
+        t = getattr(learn, k)(kpost, kpre,
                               {"learning_rate": c["lr_post"], "time_constant": c["tc_post"]},
                               {"learning_rate": c["lr_pre"], "time_constant": c["tc_pre"]},
                               batch_reduction=red, inplace=c["inplace"])
